@@ -482,6 +482,11 @@ func wfaultWorker(p *wfaultParams, st *Stats) {
 		if i >= firstLongLine && r.Chance(2, 3) {
 			cfgs[0].Unsafe = true // raw HTML lines are written in one piece
 		}
+		if r.Split("err-renderer").Chance(1, 3) {
+			// the caller's own node renderers return the error of their writes: Render's
+			// early-return exit path
+			cfgs[0].ErrRenderer = true
+		}
 		for _, cfg := range cfgs {
 			paths := []string{"Convert", "ParseRender"}
 			if cfg.IsDefault() {
